@@ -138,3 +138,9 @@ def check_C17(ctx):
     kf = [f for f in fw.known_findings("C17") if f.get("id") == "D13"]
     if kf and any(of["oracle"] == "C17-deleted-def" and of["script"].startswith("D13") for of in ctx.kernel_run.oracle_fails):
         ctx.known.append("swap_face_indices leaves the stored definition of a deferred-deleted cell unrelabeled (D13; replay corpus/kernel/known-findings.scripts)")
+
+def check_C02(ctx):
+    kernel_property(ctx, "C02", "Props/Properties_C02.v", ["valid", "setops"], {"DelV", "DelE", "DelF", "DelC", "GC", "EnDef"},
+                    assumptions=["cache exactness (vbu_ok/ebu_ok/fbu_ok) and the size invariant are hypotheses of the deferred-mode theorems; the size invariant is proved for every "
+                                 "reachable state, cache exactness is evaluated by the sound decision procedures of Kernel/InvB.v on every model state the run visits",
+                                 "the immediate and fast modes (renumbering) are covered by lock step + oracle, not by a theorem; the oracle identifies vertices by position tokens"])
